@@ -7,6 +7,13 @@ TRUST = ('rustc MIR construction + type checker (nightly 1.97), the mirfacts dri
          '(lint/extern_models.py), dependency crates not analysed; see DESIGN.md 2.1')
 
 CLAIMS = {
+ 'C11': dict(
+    text='Static, the whole quantizer x level domain at once: A the coefficient stored by inverse_rle has the canonical form of '
+         'clamp(sgn(L)*(Q*(2|L|+1) - [Q even]), -2048, 2047) (equal as functions), depends only on L and Q, and is stored at block_data[zig_y][zig_x]; '
+         'B the interval reading shows no intermediate overflow for Q in [0,31], L in [-1024,1023] (found D3: i16 product, fixed) and both ranges are checked '
+         'at their producers; W escape LEVEL width is 7/11 by one bit exactly under Sorenson version 1, else 8, RUN 6 bits; C IntraDc::from_u8 / into_level folded '
+         'over all 256 codes; D the DQUANT code table and clamp(q + dq, 1, 31). What the coefficient does to decoded samples is C02.',
+    technique='def-use expression -> canonical-form equality against the written-out formula; interval abstract interpretation; constant folding of finite tables', ref='6/C11'),
  'C09': dict(
     text='Static, all 2^32 patterns x 12 strengths and all sizes: K1 the scalar kernel (helpers inlined, if-converted) has, for each of A,B,C,D, the same '
          'canonical form as the Annex J formulas written out with truncating division (so it equals them on every input); K2 each of the 8 lanes of the vector '
